@@ -75,7 +75,7 @@ theorem readNested_zero (b : Bytes) (q : Nat) (c : Cost) : readNested b q 0 c = 
 
 theorem zero_count_aux (N : Nat) (hN : (0 + 65535) % 65536 = N) (S : RuleSites) (b : Bytes) (q : Nat) (c : Cost) (post : Bytes)
     (h : b.drop q = [0, 0, 0, 0] ++ (List.replicate (2 * N) (0 : UInt8) ++ (0 :: 0 :: 0 :: 0 :: post))) :
-    ∃ c', readCRule S b q c = .ok (⟨[], List.replicate N 0, [], []⟩, c') ∧
+    ∃ c', readCRuleOld S b q c = .ok (⟨[], List.replicate N 0, [], []⟩, c') ∧
       c'.alloc = c.alloc + N + 1 := by
   have hbe : be 0 0 = 0 := by decide
   have h0 : readU16 (S.back ++ "#ReadUint16(count)") b q = .ok 0 := by
@@ -98,10 +98,10 @@ theorem zero_count_aux (N : Nat) (hN : (0 + 65535) % 65536 = N) (S : RuleSites) 
     have := hd 2
     rw [readU16_of_drop (x := 0) (y := 0) (rest := post) this, hbe]
   refine ⟨⟨c.steps + N + 4, c.alloc + N + 1⟩, ?_, rfl⟩
-  unfold readCRule
+  unfold readCRuleOld readCRuleG
   rw [readSlice_zero h0, ok_bind]
   dsimp only
-  rw [h1, ok_bind]
+  rw [h1, ok_bind, if_neg (by decide)]
   have hlt : N < 65536 := by omega
   rw [hN, mkSlice_ok _ _ _ hlt, ok_bind, wordsLoop_zeros S.input b _ N (q + 2 + 2) [] _ h2, ok_bind]
   dsimp only
@@ -114,17 +114,39 @@ theorem zero_count_aux (N : Nat) (hN : (0 + 65535) % 65536 = N) (S : RuleSites) 
   rw [e1, e2]
   rfl
 
-/-- FINDING (quirk, no panic): a chained rule whose `inputGlyphCount` word is 0 is ACCEPTED with
-65535 input entries whenever 131070 bytes follow (`inputGlyphCount-1` in uint16, nested.go:742 and
-1070, no zero check) — here the rule `00 00 | 00 00 | 65535 × 00 00 | 00 00 | 00 00` (no
-backtrack, count 0, 65535 zero glyphs, no lookahead, no actions) anywhere in any data, for both
-formats.  The whole-subtable version is in the V stream (`igc0-full`: Go and model agree on
-`ok:c1|…|bi#65535~…la`). -/
+/-- FINDING C02-zero-count (BEFORE the repair, `readCRuleOld`): a chained rule whose
+`inputGlyphCount` word is 0 was ACCEPTED with 65535 input entries whenever 131070 bytes follow
+(`inputGlyphCount-1` in uint16, no zero check) — here the rule
+`00 00 | 00 00 | 65535 × 00 00 | 00 00 | 00 00` (no backtrack, count 0, 65535 zero glyphs, no
+lookahead, no actions) anywhere in any data, for both formats.  Confirmed on the code before the
+repair (V line `igc0-full`: `ok:c1|…|bi#65535~…la`).  The code as it is now refuses the count:
+`chained_zero_count_rejected`. -/
 theorem chained1_zero_count_accepted (S : RuleSites) (b : Bytes) (q : Nat) (c : Cost) (post : Bytes)
     (h : b.drop q = [0, 0, 0, 0] ++ (List.replicate (2 * 65535) (0 : UInt8) ++ (0 :: 0 :: 0 :: 0 :: post))) :
-    ∃ c', readCRule S b q c = .ok (⟨[], List.replicate 65535 0, [], []⟩, c') ∧
+    ∃ c', readCRuleOld S b q c = .ok (⟨[], List.replicate 65535 0, [], []⟩, c') ∧
       c'.alloc = c.alloc + 65535 + 1 :=
   zero_count_aux 65535 (by decide) S b q c post h
+
+/-- AFTER the repair (nested.go:746, 1083): a rule whose `inputGlyphCount` word is 0 is refused as
+invalid, whatever follows it, in both formats -/
+theorem chained_zero_count_rejected (S : RuleSites) (b : Bytes) (q : Nat) (c : Cost)
+    (back : List Nat) (q' : Nat) (c' : Cost) (h1 : readSlice S.back b q c = .ok (back, q', c'))
+    (h2 : readU16 S.count b q' = .ok 0) : readCRule S b q c = .err "invalid" := by
+  unfold readCRule readCRuleG
+  rw [h1, ok_bind]
+  dsimp only
+  rw [h2, ok_bind, if_pos ⟨rfl, rfl⟩]
+
+/-- the same on the concrete rule of `chained1_zero_count_accepted` -/
+theorem chained_zero_count_rejected' (S : RuleSites) (b : Bytes) (q : Nat) (c : Cost) (rest : Bytes)
+    (h : b.drop q = 0 :: 0 :: 0 :: 0 :: rest) : readCRule S b q c = .err "invalid" := by
+  have hbe : be 0 0 = 0 := by decide
+  have h0 : readU16 (S.back ++ "#ReadUint16(count)") b q = .ok 0 := by
+    rw [readU16_of_drop (x := 0) (y := 0) h, hbe]
+  refine chained_zero_count_rejected S b q c [] _ _ (readSlice_zero h0) ?_
+  have : b.drop (q + 2 + 2 * 0) = 0 :: 0 :: rest := by
+    rw [show q + 2 + 2 * 0 = q + 2 by omega, ← List.drop_drop, h]; rfl
+  rw [readU16_of_drop this, hbe]
 
 /-! ## format 3: aliased coverage offsets are decoded once per offset -/
 
